@@ -201,7 +201,7 @@ theorem queue_methods_covered :
     (RequestDoubleQueue.facts.methods.filter (fun M => M.name == "SetCallbacks1" || M.name == "SetCallbacks2")).all
       (fun M => methodLocked RequestDoubleQueue.facts M.name) = true := by decide
 
-/-! ### known finding `RequestDoubleQueue:callbacks-unsettable`, characterised on the source facts -/
+/-! ### the former finding `RequestDoubleQueue:callbacks-unsettable` (repaired: SetCallbacks1/2), on the source facts -/
 
 /-- the methods of `T` that assign one of the fields `flds` -/
 def assigners (T : TypeFacts) (flds : List String) : List String :=
@@ -216,7 +216,7 @@ def invokers (T : TypeFacts) (flds : List String) : List String :=
     although Put1/Put2/PutForce1/PutForce2 would invoke them: through the public API a refused or
     evicted element of the double queue is reported to nobody.  The single queue's callbacks are
     exported fields (`Failed`, `Overflowed`) and are invoked by Put / PutForce. -/
-theorem double_queue_callbacks_never_assigned :
+theorem double_queue_callbacks_assigned_only_by_setters :
     ["failed1", "overflowed1", "failed2", "overflowed2"].all (RequestDoubleQueue.facts.fields.contains ·) = true ∧
     -- no method assigns them — or, with proposed/C11/fix-KF-callbacks-unsettable.diff, only the two setters do
     (assigners RequestDoubleQueue.facts ["failed1", "overflowed1", "failed2", "overflowed2"]).all
